@@ -4,6 +4,7 @@ import BU.Spec.Base58
 import BU.Spec.CurveLaws
 import BU.Model.Keys
 import BU.Proofs.Base58Lemmas
+import BU.Proofs.KeyLemmas
 /-!
 # C09 — private/public key encodings (WIF, SEC, x-only) round-trip and match the curve
 
@@ -17,19 +18,41 @@ open Py Spec Model Secp
 /-- **T-tie**: every network has a one-byte WIF version prefix (0x80 mainnet, 0xef otherwise) -/
 theorem wif_prefixes : ∀ e ∈ Gen.NETWORK_WIF_PREFIXES, e.2.length = 1 ∧
     (e.1 = "mainnet" → e.2 = [0x80]) ∧ (e.1 ≠ "mainnet" → e.2 = [0xef]) := by
-  sorry
+  decide
 
 /-- WIF export then import is the identity, compressed and uncompressed, for every secret in [1, n−1] and every
 one-byte network prefix -/
 theorem wif_roundtrip (dsha : Bytes → Bytes) (hd : ∀ x, (dsha x).length = 32) (pfx : Bytes) (hp : pfx.length = 1)
     (d : Nat) (h1 : 1 ≤ d) (h2 : d < n) (c : Bool) :
     fromWif dsha pfx (toWif dsha pfx d c) = .ok d := by
-  sorry
+  have hcs : ∀ x, ((dsha x).take 4).length = 4 := by intro x; simp [hd x]
+  have hn := KeyLemmas.n_lt'
+  have hdlt : d < 256 ^ 32 := Nat.lt_trans h2 hn
+  have hsk : signingKeyFromString (beBytes 32 d) = .ok d := by
+    unfold signingKeyFromString
+    simp [Py.ofBE_beBytes 32 d hdlt, h1, h2]
+  unfold fromWif toWif
+  simp only [Base58Lemmas.decode_encode]
+  generalize hdata : pfx ++ beBytes 32 d ++ (if c = true then [0x01] else []) = data
+  have hdl : dropLast4 (data ++ (dsha data).take 4) = data := by
+    unfold dropLast4
+    rw [List.length_append, hcs, Nat.add_sub_cancel, List.take_left']
+    rfl
+  have hl4 : last4 (data ++ (dsha data).take 4) = (dsha data).take 4 := by
+    unfold last4
+    rw [List.length_append, hcs, Nat.add_sub_cancel, List.drop_left']
+    rfl
+  simp only [hdl, hl4, beq_self_eq_true, Bool.not_true, Bool.false_eq_true, if_false]
+  obtain ⟨b0, rfl⟩ : ∃ b0, pfx = [b0] := by
+    match pfx, hp with
+    | [b0], _ => exact ⟨b0, rfl⟩
+  subst hdata
+  cases c <;> simp [hsk]
 
 /-- exported WIF is Base58Check(version ‖ 32-byte key ‖ [01 if compressed]) -/
 theorem wif_standard_form (dsha : Bytes → Bytes) (pfx : Bytes) (d : Nat) (c : Bool) :
     toWif dsha pfx d c = B58.check dsha (pfx ++ beBytes 32 d ++ (if c then [0x01] else [])) := by
-  sorry
+  rfl
 
 /-- imports with a wrong checksum, another network's version byte, or characters outside the alphabet are rejected -/
 theorem wif_rejects (dsha : Bytes → Bytes) (pfx : Bytes) (w : String)
@@ -37,7 +60,18 @@ theorem wif_rejects (dsha : Bytes → Bytes) (pfx : Bytes) (w : String)
          (∃ data, B58.decode w = some data ∧
             (last4 data ≠ (dsha (dropLast4 data)).take 4 ∨ (dropLast4 data).take 1 ≠ pfx))) :
     ∃ e, fromWif dsha pfx w = .error e := by
-  sorry
+  unfold fromWif
+  rcases h with h | ⟨data, hdec, h | h⟩
+  · exact ⟨_, by simp only [h]; rfl⟩
+  · have hb : (last4 data == (dsha (dropLast4 data)).take 4) = false := by
+      simpa using h
+    exact ⟨.valueError, by simp only [hdec, hb]; rfl⟩
+  · by_cases hc : (last4 data == (dsha (dropLast4 data)).take 4) = true
+    · have hb : (pfx != (dropLast4 data).take 1) = true := by
+        simp only [bne_iff_ne, ne_eq]; exact fun e => h e.symm
+      exact ⟨.valueError, by simp only [hdec, hc, hb]; rfl⟩
+    · have hc' : (last4 data == (dsha (dropLast4 data)).take 4) = false := by simpa using hc
+      exact ⟨.valueError, by simp only [hdec, hc']; rfl⟩
 
 /-- building a key from an explicit secret either holds exactly that secret or fails; only the call without
 arguments generates a random key -/
@@ -45,17 +79,59 @@ theorem explicit_secret (dsha : Bytes → Bytes) (pfx : Bytes) (w : Option Strin
     (privInit dsha pfx w e b = .ok none ↔ (w = none ∧ e = none ∧ b = none)) ∧
     (∀ k b', privInit dsha pfx none e (some b') = .ok (some k) → b' = beBytes 32 k ∧ 1 ≤ k ∧ k < n) ∧
     (∀ k ev, privInit dsha pfx none (some ev) none = .ok (some k) → (k : Int) = ev ∧ 1 ≤ k ∧ k < n) := by
-  sorry
+  refine ⟨?_, ?_, ?_⟩
+  · constructor
+    · intro h
+      have hmap : ∀ (x : Except PyErr Nat), x.map some ≠ .ok none := by
+        intro x; cases x <;> simp [Except.map]
+      cases w with
+      | some w => exact absurd h (hmap _)
+      | none =>
+        cases b with
+        | some bb => exact absurd h (hmap _)
+        | none =>
+          cases e with
+          | some ev => exact absurd h (hmap _)
+          | none => exact ⟨rfl, rfl, rfl⟩
+    · rintro ⟨rfl, rfl, rfl⟩; rfl
+  · intro k b' h
+    have h' : (if b'.length ≠ 32 then Except.error PyErr.valueError else signingKeyFromString b').map some
+        = .ok (some k) := by
+      cases e <;> exact h
+    by_cases hl : b'.length ≠ 32
+    · simp [hl, Except.map] at h'
+    · simp only [hl, if_false] at h'
+      have hl' : b'.length = 32 := by omega
+      unfold signingKeyFromString at h'
+      simp only [hl, if_false] at h'
+      by_cases hr : 1 ≤ ofBE b' ∧ ofBE b' < n
+      · simp only [hr, and_self, if_true, Except.map, Except.ok.injEq, Option.some.injEq] at h'
+        subst h'
+        refine ⟨?_, hr.1, hr.2⟩
+        have := Py.leBytes_ofLE b'.reverse
+        rw [List.length_reverse, hl'] at this
+        unfold beBytes ofBE
+        rw [this, List.reverse_reverse]
+      · simp [hr, Except.map] at h'
+  · intro k ev h
+    have h' : (signingKeyFromExponent ev).map some = .ok (some k) := h
+    unfold signingKeyFromExponent at h'
+    by_cases hr : 1 ≤ ev ∧ ev < n
+    · simp only [hr, and_self, if_true, Except.map, Except.ok.injEq, Option.some.injEq] at h'
+      subst h'
+      omega
+    · simp [hr, Except.map] at h'
 
 /-- the public key of `d` is `d·G` -/
 theorem pub_is_dG (d : Nat) (P : Nat × Nat) : pubOfPriv d = .ok P ↔ mul G d = some P := by
-  sorry
+  unfold pubOfPriv
+  cases h : mul G d <;> simp
 
 /-- standard forms: 02/03 ‖ x by parity of y, 04 ‖ x ‖ y, 32-byte x -/
 theorem sec_standard_form (P : Nat × Nat) :
     pubToBytes P true = (if P.2 % 2 = 0 then 0x02 else 0x03) :: beBytes 32 P.1 ∧
     pubToBytes P false = 0x04 :: (beBytes 32 P.1 ++ beBytes 32 P.2) ∧ pubXOnly P = beBytes 32 P.1 := by
-  sorry
+  exact ⟨rfl, rfl, rfl⟩
 
 /-- parsing any of the three encodings of `d·G` returns the identical curve point (for x-only: its even-y
 representative), for both parities and for x coordinates with leading zero bytes -/
@@ -63,11 +139,41 @@ theorem sec_roundtrip (laws : CurveLaws) (d : Nat) (hd : 1 ≤ d ∧ d < n) (x y
     pubFromBytes (pubToBytes (x, y) true) = .ok (x, y) ∧
     pubFromBytes (pubToBytes (x, y) false) = .ok (x, y) ∧
     pubFromBytes (pubXOnly (x, y)) = .ok (x, if y % 2 = 0 then y else p - y) := by
-  sorry
+  obtain ⟨hx, hy0, hy⟩ := laws.coords d x y hP
+  have hc := laws.onCurve_mulG d x y hP
+  have hl := laws.liftX_mulG d x y hP
+  obtain ⟨r, hr0, hr, hyr, hs⟩ := KeyLemmas.sqrtAll_of_liftX x y hy0 hy hl
+  have hx' : x < 256 ^ 32 := Nat.lt_trans hx KeyLemmas.p_lt'
+  have hx2 : ¬ x ≥ 2 ^ 256 := by have := KeyLemmas.p_lt; omega
+  have hpodd := KeyLemmas.p_odd
+  have hvk := KeyLemmas.verifyingKey_ok x y hx hy hc
+  have hcn : onCurve (some (x, p - y)) = true := by rw [KeyLemmas.onCurve_neg x y hy0 hy]; exact hc
+  have hvkn := KeyLemmas.verifyingKey_ok x (p - y) hx (by omega) hcn
+  have hx3 : ¬ ((2 : Nat) ^ 256 ≤ x) := hx2
+  simp only [Nat.reducePow] at hx3
+  have hppr : p - (p - r) = r := by omega
+  have hpar : (r % 2 = 0 ∧ (p - r) % 2 = 1) ∨ (r % 2 = 1 ∧ (p - r) % 2 = 0) := by omega
+  refine ⟨?_, ?_, ?_⟩
+  · unfold pubFromBytes pubToBytes
+    by_cases hlt : r < p - r <;> rcases hpar with ⟨hp1, hp2⟩ | ⟨hp1, hp2⟩ <;> rcases hyr with rfl | rfl <;>
+      simp [hp1, hp2, hlt, Py.ofBE_beBytes 32 x hx', hs, hx3, hvk]
+  · unfold pubFromBytes pubToBytes
+    simp [hvk]
+  · unfold pubFromBytes pubXOnly
+    by_cases hlt : r < p - r <;> rcases hpar with ⟨hp1, hp2⟩ | ⟨hp1, hp2⟩ <;> rcases hyr with rfl | rfl <;>
+      (try rw [hppr] at hvkn) <;>
+      simp [hp1, hp2, hlt, Py.ofBE_beBytes 32 x hx', hs, hx3, hvk, hvkn, hppr]
 
 /-- encodings of x values that are not on the curve are rejected -/
 theorem offcurve_rejected (x : Nat) (hx : x < 2 ^ 256) (h : sqrtAll ((x ^ 3 + 7) % p) = []) (pre : UInt8) :
     (∃ e, pubFromBytes (pre :: beBytes 32 x) = .error e) ∧ (∃ e, pubFromBytes (beBytes 32 x) = .error e) := by
-  sorry
+  have hx' : x < 256 ^ 32 := by rw [KeyLemmas.pow256_32]; exact hx
+  constructor
+  · refine ⟨.indexError, ?_⟩
+    unfold pubFromBytes
+    simp [Py.ofBE_beBytes 32 x hx', h]
+  · refine ⟨.indexError, ?_⟩
+    unfold pubFromBytes
+    simp [Py.ofBE_beBytes 32 x hx', h]
 
 end C09
